@@ -100,10 +100,13 @@ func genOpenValue(rt *rapid.T) wire.Open {
 		nc := rapid.IntRange(1, 6).Draw(rt, "ncaps")
 		for j := 0; j < nc && pb >= 2; j++ {
 			maxv := pb - 2
-			if maxv > 60 {
-				maxv = 60
+			if maxv > 60 && rapid.IntRange(0, 4).Draw(rt, "bigcap") != 0 {
+				maxv = 60 // mostly small values, sometimes up to what fits (127/128 and 251 octets included)
 			}
 			c := genCap(rt, maxv)
+			if maxv > 60 && len(c.Value) > 4 {
+				c.Value = c.Value[:min(len(c.Value), pick(rt, "bigcaplen", 127, 128, 129, 200, 251, 253, maxv))]
+			}
 			p.Caps = append(p.Caps, c)
 			pb -= 2 + len(c.Value)
 		}
